@@ -357,7 +357,12 @@ func runC14(c *c14case) []*c14event {
 		}
 		ev.S1 = ints(s1)
 		ev.To = shapeOf(c.Ast.Build().Script())
-		ev.Mo = match(func() bool { return c.Ast.Build().Script().Match(elem) })
+		if form == "Filter.String" {
+			// the filter applied to [elem]: $ is that list, for the original and for the re-parsed filter alike
+			ev.Mo = match(func() bool { return len(jp.R().F(c.Ast.Build()).Get([]any{elem})) == 1 })
+		} else {
+			ev.Mo = match(func() bool { return c.Ast.Build().Script().Match(elem) })
+		}
 		ev.Eo = []string{fmt.Sprint(ev.Mo)}
 		ev.Eos = ev.Eo
 		if perr != "" {
